@@ -1,12 +1,15 @@
 import PeptVerif.Model.ParserProto
 import PeptVerif.Model.C09Dispatch
+import PeptVerif.Model.C09Ion
 /-! driver for C09: same step function as C01 (the parser model is shared), plus the resolver-dispatch op of the
 deferred-validation extension:
 
 * `reached <precursor 0|1> <A-dump> <static dict>` → the modifications `mass` (fast path) hands to `mod_mass`, in call order
   (`Dispatch.reachedStatic` of the dict, then `Dispatch.reachedPlaced`), `;`-separated wire mods.
   static dict := `-` (no static rules) | entry (`;` entry)*, entry := `<escaped target>=<mod>&<mod>…` — what
-  `parse_static_mods` returned, in insertion order. -/
+  `parse_static_mods` returned, in insertion order.
+* `ion <fixed 0|1> <escaped text> <escaped keys of ISOTOPIC_ATOMIC_MASSES, comma separated>` → `parse_ion_elements(text)`:
+  `I<count>,<escaped symbol>,<charge>` | `ERR:<class>` (Model/C09Ion.lean) -/
 open Proto Pept Pept.Wire
 namespace Pept.Drv9
 
@@ -27,6 +30,13 @@ def step (line : String) : String :=
     match parseBool? p, parseAnnotation? dump, readStatic? st with
     | some p, some a, some map =>
       "R" ++ showModsWith ";" (Dispatch.reachedStatic map ++ Dispatch.reachedPlaced p a)
+    | _, _, _ => "bad-args"
+  | ["ion", f, txt, keys] =>
+    match parseBool? f, unesc txt, (keys.splitOn ",").mapM unesc with
+    | some f, some t, some ks =>
+      match Ion.parseIonElements f (fun sym => ks.contains sym) t with
+      | .ok (cnt, sym, ch) => "I" ++ toString cnt ++ "," ++ esc sym ++ "," ++ toString ch
+      | .error e => "ERR:" ++ e.name
     | _, _, _ => "bad-args"
   | _ => Pept.Drv.step line
 
